@@ -145,8 +145,16 @@ def msg_scenarios(rng, tier):
         comp = rng.choice([0, 1])
         ls = ["T.use cur", "tm.new 5 " + " ".join("%06d" % d for d in t)]
         pool = MSG64 if k == 64 else MSG32
+        extreme = rng.random() < 0.3
+        if extreme:
+            # a column holding only infinities and the largest finite values (the library's own "missing" reals
+            # among them), not all alike: each is a value of its own and is listed in compressed data
+            nsub = rng.choice([2, 3]); comp = rng.choice([1, 1, 0])
+            pool = [0x7ff0000000000000, 0xfff0000000000000, 0x7fefffffffffffff, 0xffefffffffffffff] if k == 64 else \
+                   [0x7f800000, 0xff800000, 0x7f7fffff, 0xff7fffff]
+            picks = rng.sample(pool, nsub)
         for s_ in range(nsub):
-            v = rng.choice(pool) if rng.random() < 0.8 else rng.getrandbits(k)
+            v = picks[s_] if extreme else rng.choice(pool) if rng.random() < 0.8 else rng.getrandbits(k)
             if (v >> (k - 1)) and not (v & ((1 << (k - 1)) - 1)):
                 v = 0        # -0.0: the model's exact rationals identify it with +0.0 (witness in corpus/C19-compressed-signed-zero.c)
             ls += ["ss.new", "ss.set%s %d %d %0*x" % ("d" if k == 64 else "f", s_, ix, k // 4, v)]
